@@ -2,98 +2,242 @@
 
 Tie: translator (step / initialize_simulants / finalize skeletons, run-loop comparison, bucket count,
 Event fields) + correspondence: probe listeners in real simulations log
-(channel, listener, priority, clock, event.time, event.step_size) and probe initializers log SimulantData;
-the model (Driver/C08.lean = context skeleton + emitOrder + runLoop) predicts the same log exactly
-(order inside one priority level is not compared: the framework does not guarantee it).
+(channel, listener, priority, clock, event.time, event.step_size, len(event.index)) and probe initializers log
+SimulantData; the model (Driver/C08.lean = context skeleton + emitOrder + runLoop) predicts the same log exactly
+(order inside one priority level is not compared: the framework does not guarantee it). The model is fed the
+CONFIGURED start / end / step, never values read back from the clock.
+
+Case (JSON):
+  clock: simple | datetime; start, stop (ints | [y, m, d]); step (int | [num, den] days); std; pop; mode; comps: [spec]
+  spec: {name, hooks: [[prio | null (= class default), id] | null (= hook not defined)] x 5 (+ optional 6th: post_setup),
+         explicit: [[channel, prio | null, id, form?, kind?, ptype?]], sub?: [spec], via?: index of the component whose
+         register_listener handle is used, hook_ptype?: int | np, untrack?: [[k, channel index, [simulants]]]}
+  mode: run_simulation | run_simulation_call | run_backup | manual | interactive_run | interactive_run_pos | interactive_until |
+        interactive_until_kw | interactive_for | interactive_take | interactive_take_kw | interactive_step |
+        interactive_split (split: [a, d]) | interactive_explicit (sizes: [[x, form]]);  units of a, d, x: ticks (simple) / hours (datetime)
+  step_float?: whole-day steps passed as float; prior?: an earlier case run first in the same process
 """
 from __future__ import annotations
 
+import datetime
+import functools
 import math
 import random
+import shutil
+import tempfile
 from fractions import Fraction
 
 from .. import impl
-from ..runner import Prop
+from ..runner import CaseTimeout, Prop
 
 CH = ["time_step__prepare", "time_step", "time_step__cleanup", "collect_metrics"]
+HOOK_CH = CH + ["simulation_end", "post_setup"]
 DAY_NS = 86_400_000_000_000
+HOUR_NS = 3_600_000_000_000
+LIFECYCLE_EVENTS = set(CH) | {"post_setup", "simulation_end", "report"}
+UNNAMED_KINDS = ("partial", "object", "helper")      # callables without __name__ / bound to an object without .name (F34)
+MODES = ["run_simulation", "run_simulation_call", "run_backup", "manual", "interactive_run", "interactive_run_pos", "interactive_until",
+         "interactive_until_kw", "interactive_for", "interactive_take", "interactive_take_kw", "interactive_step"]
 
 
-def _run(case):
+# ------------------------------------------------------------------------------------------------ configuration
+def _configured(case):
+    """start, end, step in clock ticks as CONFIGURED (step None when the day fraction is not exactly representable)"""
+    if case["clock"] == "simple":
+        return case["start"], case["stop"], (case.get("std") or case["step"])
+    epoch = datetime.datetime(1970, 1, 1)
+    t0 = int((datetime.datetime(*case["start"]) - epoch).total_seconds()) * 1_000_000_000
+    stop = int((datetime.datetime(*case["stop"]) - epoch).total_seconds()) * 1_000_000_000
+    num, den = case["step"]
+    want = Fraction(num, den) * DAY_NS
+    exact = den & (den - 1) == 0 and want.denominator == 1     # dyadic day fraction: every float operation of the conversion is exact
+    return t0, stop, (int(want) if exact else None)
+
+
+def _unit(case):
+    return 1 if case["clock"] == "simple" else HOUR_NS
+
+
+def _flat(comps):
+    for c in comps:
+        yield c
+        yield from _flat(c.get("sub") or [])
+
+
+def _explicit(e):
+    """[channel, prio, id, form, kind, ptype] with defaults filled in"""
+    ch, pr, lid = e[:3]
+    form = e[3] if len(e) > 3 else ("default" if pr is None else "pos")
+    kind = e[4] if len(e) > 4 else "lambda"
+    ptype = e[5] if len(e) > 5 else "int"
+    return ch, pr, lid, form, kind, ptype
+
+
+def _regs(case):
+    """registrations as (channel, priority, id), derived from the case alone"""
+    regs = []
+    for c in _flat(case["comps"]):
+        for e in c["explicit"]:
+            ch, pr, lid = e[:3]
+            regs.append((ch, 5 if pr is None else int(pr), lid))
+        for k, h in enumerate(c["hooks"]):
+            if h is not None:
+                regs.append((HOOK_CH[k], 5 if h[0] is None else int(h[0]), h[1]))
+    return regs
+
+
+def _schedule(case, t0, stop, h):
+    """every step the drive must take as (clock, step size), the counts the interactive calls must return, the final clock"""
+    u = _unit(case)
+    sched, t, ret = [], t0, {}
+
+    def loop(bound):
+        nonlocal t
+        n = 0
+        while t < bound:
+            sched.append((t, h))
+            t += h
+            n += 1
+        return n
+    if case["mode"] == "interactive_explicit":
+        for x, _form in case["sizes"]:
+            sched.append((t, x * u))
+            t += x * u
+        ret["after"] = loop(stop)
+    elif case["mode"] == "interactive_split":
+        a, d = case["split"]
+        n1 = loop(t0 + a * u)
+        n2 = loop(t + d * u)
+        ret["split"] = [n1, n2, loop(stop)]
+    else:
+        ret["n"] = loop(stop)
+    return sched, ret, t
+
+
+# ------------------------------------------------------------------------------------------------ implementation
+def _run(case, keep):
     impl.load()
+    import numpy as np
     import pandas as pd
     from vivarium import Component
     from vivarium.framework.engine import SimulationContext
     from vivarium.interface.interactive import InteractiveContext
 
-    LOG, INIT = [], []
+    LOG, INIT, HANDLES = [], [], {}
 
     def tick(x):
-        if isinstance(x, pd.Timestamp):
-            return int(x.value)
-        if isinstance(x, pd.Timedelta):
+        if isinstance(x, (pd.Timestamp, pd.Timedelta)):
             return int(x.value)
         return int(x)
 
-    class L(Component):
-        def __init__(self, spec):
-            super().__init__()
-            self.spec = spec
+    def record(clock, ch, lid, pr, e):
+        LOG.append([ch, lid, pr, tick(clock()), tick(e.time), tick(e.step_size), len(e.index) if e.index is not None else -1])
 
-        @property
-        def name(self):
-            return self.spec["name"]
+    def ptyped(p, ptype):
+        if ptype == "np":
+            return np.int64(p)
+        if ptype == "np8":
+            return np.int8(p)
+        if ptype == "bool" and p in (0, 1):
+            return bool(p)
+        return p
 
-        @property
-        def time_step_prepare_priority(self):
-            return self.spec["hooks"][0][0]
+    class CallableListener:                     # a callable OBJECT (no __name__)
+        def __init__(self, f):
+            self.f = f
 
-        @property
-        def time_step_priority(self):
-            return self.spec["hooks"][1][0]
+        def __call__(self, e):
+            self.f(e)
 
-        @property
-        def time_step_cleanup_priority(self):
-            return self.spec["hooks"][2][0]
+    class Helper:                               # a bound method of an object that is not a component (no .name)
+        def __init__(self, f):
+            self.f = f
 
-        @property
-        def collect_metrics_priority(self):
-            return self.spec["hooks"][3][0]
+        def listen(self, e):
+            self.f(e)
 
-        @property
-        def simulation_end_priority(self):
-            return self.spec["hooks"][4][0]
+    class NamedHelper(Helper):                  # … and of one that has a name
+        name = "named_helper"
+
+    def partial_target(f, e):
+        f(e)
+
+    def make_class(spec, index):
+        ns = {}
+        hooks = spec["hooks"]
+        prio_props = ["time_step_prepare_priority", "time_step_priority", "time_step_cleanup_priority", "collect_metrics_priority",
+                      "simulation_end_priority", "post_setup_priority"]
+        hook_names = ["on_time_step_prepare", "on_time_step", "on_time_step_cleanup", "on_collect_metrics", "on_simulation_end", "on_post_setup"]
+        hp = spec.get("hook_ptype", "int")
+        for k, h in enumerate(hooks):
+            if h is None:
+                continue                        # hook not defined: nothing is registered for it
+            pr, lid = h
+            if pr is not None:                  # else: the Component default (5)
+                ns[prio_props[k]] = property(lambda self, pr=pr: ptyped(pr, hp))
+
+            def hook(self, e, k=k, lid=lid, pr=pr):
+                record(self.clock, HOOK_CH[k], lid, 5 if pr is None else pr, e)
+                self.act(k)
+            ns[hook_names[k]] = hook
+
+        def __init__(self):
+            Component.__init__(self)
+            self.count = {}
+            self._subs = [make_class(s, None)() for s in spec.get("sub") or []]
 
         def setup(self, b):
             self.clock = b.time.clock()
-            for ch, pr, lid in self.spec["explicit"]:
-                if pr is None:
-                    b.event.register_listener(ch, (lambda e, ch=ch, lid=lid: self._l(ch, lid, 5, e)))
+            HANDLES[index] = b.event.register_listener
+            reg = HANDLES.get(spec.get("via"), b.event.register_listener) if spec.get("via") is not None else b.event.register_listener
+            if spec.get("untrack"):
+                self.view = b.population.get_view(["tracked"])
+            for e in spec["explicit"]:
+                ch, pr, lid, form, kind, ptype = _explicit(e)
+                base = (lambda ev, ch=ch, lid=lid, pr=pr: record(self.clock, ch, lid, 5 if pr is None else pr, ev))
+                if kind == "lambda":
+                    f = base
+                elif kind == "function":
+                    def f(ev, base=base):
+                        base(ev)
+                elif kind == "method":          # a bound method of the component itself
+                    import types
+                    f = types.MethodType(lambda self_, ev, base=base: base(ev), self)
+                    f.__func__.__name__ = f"listener_{lid}"
+                elif kind == "named-helper":
+                    f = NamedHelper(base).listen
+                elif kind == "helper":
+                    f = Helper(base).listen
+                elif kind == "object":
+                    f = CallableListener(base)
+                elif kind == "partial":
+                    f = functools.partial(partial_target, base)
                 else:
-                    b.event.register_listener(ch, (lambda e, ch=ch, lid=lid, pr=pr: self._l(ch, lid, pr, e)), pr)
+                    raise ValueError("listener kind " + kind)
+                if form == "default" or pr is None:
+                    reg(name=ch, listener=f) if form == "kw" else reg(ch, f)
+                elif form == "kw":
+                    reg(name=ch, listener=f, priority=ptyped(pr, ptype))
+                elif form == "kwprio":
+                    reg(ch, f, priority=ptyped(pr, ptype))
+                else:
+                    reg(ch, f, ptyped(pr, ptype))
 
-        def _l(self, ch, lid, pr, e):
-            LOG.append([ch, lid, pr, tick(self.clock()), tick(e.time), tick(e.step_size), len(e.index) if e.index is not None else -1])
-
-        def on_time_step_prepare(self, e):
-            self._l(CH[0], self.spec["hooks"][0][1], self.spec["hooks"][0][0], e)
-
-        def on_time_step(self, e):
-            self._l(CH[1], self.spec["hooks"][1][1], self.spec["hooks"][1][0], e)
-
-        def on_time_step_cleanup(self, e):
-            self._l(CH[2], self.spec["hooks"][2][1], self.spec["hooks"][2][0], e)
-
-        def on_collect_metrics(self, e):
-            self._l(CH[3], self.spec["hooks"][3][1], self.spec["hooks"][3][0], e)
-
-        def on_simulation_end(self, e):
-            self._l("simulation_end", self.spec["hooks"][4][1], self.spec["hooks"][4][0], e)
+        def act(self, k):
+            n = self.count.get(k, 0)
+            self.count[k] = n + 1
+            for step_k, chan, ids in spec.get("untrack") or []:
+                if chan == k and step_k == n and ids:
+                    self.view.update(pd.Series(False, index=pd.Index(ids), name="tracked"))
 
         def on_initialize_simulants(self, d):
-            INIT.append([self.spec["name"], tick(self.clock()), tick(d.creation_time), tick(d.creation_window), len(d.index)])
+            INIT.append([spec["name"], tick(self.clock()), tick(d.creation_time), tick(d.creation_window), len(d.index)])
 
-    comps = [L(s) for s in case["comps"]]
+        ns.update(__init__=__init__, setup=setup, act=act, on_initialize_simulants=on_initialize_simulants,
+                  name=property(lambda self: spec["name"]), sub_components=property(lambda self: self._subs))
+        return type("L_" + spec["name"], (Component,), ns)
+
+    comps = [make_class(s, i)() for i, s in enumerate(case["comps"])]
     cfg = {"population": {"population_size": case["pop"]}}
     plug = None
     if case["clock"] == "simple":
@@ -106,44 +250,94 @@ def _run(case):
         y0, m0, d0 = case["start"]
         y1, m1, d1 = case["stop"]
         num, den = case["step"]
-        cfg["time"] = {"start": {"year": y0, "month": m0, "day": d0}, "end": {"year": y1, "month": m1, "day": d1},
-                       "step_size": num / den if den != 1 else num}
+        step = num / den if den != 1 else (float(num) if case.get("step_float") else num)
+        cfg["time"] = {"start": {"year": y0, "month": m0, "day": d0}, "end": {"year": y1, "month": m1, "day": d1}, "step_size": step}
         if case.get("std"):
             cfg["time"]["standard_step_size"] = case["std"]
     SimulationContext._clear_context_cache()
     mode = case["mode"]
     out = {"error": None}
+    t0c, stopc, hc = _configured(case)
+    u = _unit(case)
+    if case["clock"] == "simple":
+        T, D = (lambda x: int(x)), (lambda x: int(x))
+    else:
+        T, D = (lambda x: pd.Timestamp(x)), (lambda x: pd.Timedelta(x))
+    tmp = None
     try:
-        if mode in ("run_simulation", "manual"):
+        if not mode.startswith("interactive"):
             sim = SimulationContext(components=comps, configuration=cfg, plugin_configuration=plug, logging_verbosity=0)
-            if mode == "run_simulation":
-                sim.setup(); sim.initialize_simulants()          # noqa: E702
-                out["t0"], out["stop"], out["h"] = tick(sim._clock.time), tick(sim._clock.stop_time), tick(sim._clock.step_size)
-                sim.run(); sim.finalize(); sim.report(print_results=False)   # noqa: E702
+            keep.append(sim)
+            if mode == "run_simulation_call":
+                sim.run_simulation()            # the wrapper itself (report() with its default argument)
+                out["t0"], out["stop"], out["h"] = None, tick(sim._clock.stop_time), tick(sim._clock.step_size)
             else:
-                sim.setup(); sim.initialize_simulants()          # noqa: E702
+                sim.setup()
+                sim.initialize_simulants()
                 out["t0"], out["stop"], out["h"] = tick(sim._clock.time), tick(sim._clock.stop_time), tick(sim._clock.step_size)
-                while sim.current_time < sim._clock.stop_time:
-                    sim.step()
+                if mode == "run_simulation":
+                    sim.run()
+                elif mode == "run_backup":      # the second copy of the loop
+                    import pathlib
+                    tmp = tempfile.mkdtemp(prefix="c08-")
+                    sim.run(backup_path=pathlib.Path(tmp) / "backup.pkl", backup_freq=1e9)
+                else:
+                    while sim.current_time < T(stopc):
+                        sim.step()
                 sim.finalize()
                 sim.report(print_results=False)
         else:
             sim = InteractiveContext(components=comps, configuration=cfg, plugin_configuration=plug, logging_verbosity=0)
+            keep.append(sim)
             out["t0"], out["stop"], out["h"] = tick(sim._clock.time), tick(sim._clock.stop_time), tick(sim._clock.step_size)
+            h = hc if hc is not None else out["h"]
+            n = max(0, math.ceil(Fraction(stopc - t0c, h))) if h > 0 else 0
             if mode == "interactive_run":
                 out["returned_steps"] = sim.run(with_logging=False)
+            elif mode == "interactive_run_pos":
+                out["returned_steps"] = sim.run(False)
             elif mode == "interactive_until":
-                out["returned_steps"] = sim.run_until(sim._clock.stop_time, with_logging=False)
+                out["returned_steps"] = sim.run_until(T(stopc), with_logging=False)
+            elif mode == "interactive_until_kw":
+                out["returned_steps"] = sim.run_until(end_time=T(stopc), with_logging=False)
             elif mode == "interactive_for":
-                out["returned_steps"] = sim.run_for(sim._clock.stop_time - sim._clock.time, with_logging=False)
+                out["returned_steps"] = sim.run_for(D(stopc - t0c), with_logging=False)
+            elif mode == "interactive_take":
+                sim.take_steps(n, with_logging=False)
+            elif mode == "interactive_take_kw":
+                sim.take_steps(number_of_steps=n, step_size=None, with_logging=False)
+            elif mode == "interactive_step":
+                while sim.current_time < T(stopc):
+                    sim.step()
+            elif mode == "interactive_split":
+                a, d = case["split"]
+                r1 = sim.run_until(T(t0c + a * u), with_logging=False)
+                r2 = sim.run_for(duration=D(d * u), with_logging=False)
+                out["returned_split"] = [r1, r2, sim.run(with_logging=False)]
+            elif mode == "interactive_explicit":
+                for x, form in case["sizes"]:
+                    if form == "kw":
+                        sim.step(step_size=D(x * u))
+                    elif form == "take":
+                        sim.take_steps(1, D(x * u), False)
+                    else:
+                        sim.step(D(x * u))
+                out["step_after_explicit"] = tick(sim._clock.step_size)
+                out["returned_after"] = sim.run(with_logging=False)
             else:
-                n = math.ceil(Fraction(out["stop"] - out["t0"], out["h"]))
-                sim.take_steps(max(n, 0), with_logging=False)
+                raise ValueError("mode " + mode)
             sim.finalize()
             sim.report(print_results=False)
+            # the registrations as the interactive API lists them: {channel: {priority: number of listeners}}
+            out["listed"] = {ch: {str(int(p)): len(ls) for p, ls in sim.get_listeners(ch).items()} for ch in HOOK_CH + ["report"]}
         out["final_clock"] = tick(sim._clock.time)
+    except CaseTimeout:
+        raise
     except Exception as e:  # noqa: BLE001
         out["error"] = f"{type(e).__name__}: {e}"
+    finally:
+        if tmp:
+            shutil.rmtree(tmp, ignore_errors=True)
     out["log"], out["init"] = LOG, INIT
     return out
 
@@ -174,41 +368,126 @@ class C08(Prop):
     build_targets = ["VivModel.Model.Events", "VivModel.Model.Proto"]
     driver = "C08"
     technique = "Lean 4 proof (induction over registration lists and over the run loop; decide/rfl over skeletons regenerated from engine.py/event.py) + translator + exact listener-log correspondence on real simulations"
-    n_quick = 120
+    n_quick = 170
     n_thorough = 2500
     workers = 4
-    rule = ("each case is a whole simulation: 1-4 probe components, each with 5 hook listeners (own priorities) and 0-3 explicitly "
-            "registered listeners (any channel, priority 0-9 or default), SimpleClock or DateTimeClock (whole, dyadic-fractional and other "
-            "fractional day steps, ends not a multiple of the step), driven by run / manual step() / InteractiveContext run, run_until, "
-            "run_for, take_steps; distinct by case hash; non-trivial = at least one step taken and two different priorities on one channel")
+    rule = ("each case is a whole simulation: 1-4 probe components (hooks defined or not, own or default priorities, sub-components, "
+            "registrations through every call form / callable kind / another component's handle, priority 0-9 or default), SimpleClock or "
+            "DateTimeClock (any start date, whole, dyadic-fractional and other fractional day steps, ends not a multiple of the step), driven by "
+            "run / run(backup) / run_simulation() / manual step() / InteractiveContext run, run_until, run_for, take_steps, step loops, split runs, "
+            "explicit step sizes; optionally untracking listeners and an earlier, differently configured simulation in the same process; "
+            "distinct by case hash; non-trivial = at least one step taken and two different priorities on one channel")
 
-    def _comp(self, rng, k, lid):
+    # ------------------------------------------------------------------ generation
+    def _comp(self, rng, k, lid, rich=False):
         hooks = []
-        for _ in range(5):
-            hooks.append([rng.randint(0, 9) if rng.random() < 0.8 else 5, lid[0]])
+        for j in range(5):
+            if rich and rng.random() < 0.25:
+                hooks.append(None)                                  # hook not defined
+                continue
+            pr = rng.randint(0, 9) if rng.random() < 0.8 else 5
+            if rich and rng.random() < 0.2:
+                pr = None                                           # the Component default
+            hooks.append([pr, lid[0]])
+            lid[0] += 1
+        if rich and rng.random() < 0.5:
+            hooks.append([rng.choice([None, 0, 3, 9]), lid[0]])    # on_post_setup
             lid[0] += 1
         explicit = []
         for _ in range(rng.randint(0, 3)):
-            explicit.append([rng.choice(CH + CH + ["simulation_end", "post_setup", "report"]), rng.choice([None] + list(range(10))), lid[0]])
+            e = [rng.choice(CH + CH + ["simulation_end", "post_setup", "report"]), rng.choice([None] + list(range(10))), lid[0]]
+            if rich:
+                pr = e[1]
+                e += [rng.choice(["default"] if pr is None else ["pos", "kw", "kwprio"]) if rng.random() < 0.8 else "kw",
+                      rng.choice(["lambda", "function", "method", "named-helper", "object", "partial", "helper"]),
+                      rng.choice(["int", "np", "np8"] + (["bool"] if pr in (0, 1) else []))]
+            explicit.append(e)
             lid[0] += 1
-        return {"name": f"c{k}", "hooks": hooks, "explicit": explicit}
+        spec = {"name": f"c{k}", "hooks": hooks, "explicit": explicit}
+        if rich and rng.random() < 0.3:
+            spec["hook_ptype"] = "np"
+        return spec
 
-    def generate(self, rng: random.Random, i: int, tier: str):
-        lid = [0]
-        comps = [self._comp(rng, k, lid) for k in range(rng.randint(1, 4))]
-        mode = rng.choice(["run_simulation", "manual", "interactive_run", "interactive_until", "interactive_for", "interactive_take"])
-        pop = rng.choice([0, 1, 2, 5])
+    def _clock_cfg(self, rng, dates=False):
         if rng.random() < 0.45:
             st = rng.randint(0, 5)
             h = rng.randint(1, 4)
             en = st + rng.randint(0, 13)
             std = rng.choice([None, None, h, h + rng.randint(1, 3), max(1, h - 1)])
-            return {"clock": "simple", "start": st, "stop": en, "step": h, "std": std, "comps": comps, "mode": mode, "pop": pop}
+            return {"clock": "simple", "start": st, "stop": en, "step": h, "std": std}
         num, den = rng.choice([(1, 1), (1, 2), (9, 4), (61, 2), (7, 1), (3, 8), (1, 3), (5, 1), (10, 3),
-                               (1, 16), (3, 32), (3, 10), (1, 10), (13, 10), (7, 10), (13, 50), (21, 16)])
+                               (1, 16), (3, 32), (3, 10), (1, 10), (13, 10), (7, 10), (13, 50), (21, 16), (2, 1)])
         days = rng.randint(0, 40)
-        return {"clock": "datetime", "start": [2020, 1, 1], "stop": [2020, 1 + days // 28, 1 + days % 28],
-                "step": [num, den], "std": rng.choice([None, None, None, 2, 5]), "comps": comps, "mode": mode, "pop": pop}
+        d0 = datetime.date(2020, 1, 1)
+        if dates or rng.random() < 0.4:        # leap days, month and year ends
+            d0 = rng.choice([datetime.date(2020, 2, 28), datetime.date(2019, 2, 28), datetime.date(2023, 12, 31), datetime.date(2024, 2, 29),
+                             datetime.date(2021, 12, 25), datetime.date(2005, 7, 2), datetime.date(1999, 12, 31), datetime.date(2022, 3, 31)]) \
+                + datetime.timedelta(days=rng.randint(-2, 2))
+        d1 = d0 + datetime.timedelta(days=days)
+        out = {"clock": "datetime", "start": [d0.year, d0.month, d0.day], "stop": [d1.year, d1.month, d1.day],
+               "step": [num, den], "std": rng.choice([None, None, None, 2, 5, 0.5, 1.5])}
+        if den == 1 and rng.random() < 0.5:
+            out["step_float"] = True
+        return out
+
+    def _duration(self, case):
+        """(duration, step) in units of the case (ticks / hours); step None when not a whole number of units"""
+        t0, stop, h = _configured(case)
+        u = _unit(case)
+        return (stop - t0) // u, (h // u if h is not None and h % u == 0 else None)
+
+    def generate(self, rng: random.Random, i: int, tier: str):
+        lid = [0]
+        gmode = rng.choice(["classic", "classic", "classic", "forms", "forms", "prio0", "untrack", "explicit", "split", "prior", "empty"])
+        rich = gmode in ("forms", "prio0", "prior") or rng.random() < 0.25
+        comps = [self._comp(rng, k, lid, rich) for k in range(rng.randint(1, 4))]
+        if gmode == "empty":                    # channels nobody listens to, components without any hook
+            for c in comps:
+                c["hooks"] = [None if rng.random() < 0.7 else h for h in c["hooks"]]
+            if rng.random() < 0.3:
+                comps = [{"name": "c0", "hooks": [None] * 5, "explicit": []}]
+        if rich:
+            for k, c in enumerate(comps):
+                if k and rng.random() < 0.35:
+                    c["via"] = rng.randrange(k)                     # registrations through a handle another component obtained
+                if rng.random() < 0.25:
+                    c["sub"] = [dict(self._comp(rng, 0, lid, True), name=f"c{k}s{j}") for j in range(rng.randint(1, 2))]
+        case = dict(self._clock_cfg(rng, dates=(gmode == "forms")), comps=comps, mode=rng.choice(MODES), pop=rng.choice([0, 1, 2, 5]))
+        dur, hu = self._duration(case)
+        if gmode == "prio0":
+            # a listener asking for priority 0 and, on the same channel, competitors at 1-5 registered BEFORE it
+            ch = rng.choice(CH)
+            first = {"name": "early", "hooks": [None] * 5,
+                     "explicit": [[ch, p, 900 + j, rng.choice(["pos", "kw", "kwprio"]), "lambda", "int"] for j, p in enumerate(rng.sample([1, 2, 3, 4, 5, None], 3))]}
+            zero = {"name": "zero", "hooks": [None] * 5,
+                    "explicit": [[ch, 0, 950, rng.choice(["pos", "kw", "kwprio"]), rng.choice(["lambda", "function"]), rng.choice(["int", "np", "bool"])]]}
+            if rng.random() < 0.5:             # … or through the component's priority property
+                zero = {"name": "zero", "hooks": [[0, 950] if CH[j] == ch else None for j in range(4)] + [None], "explicit": [],
+                        "hook_ptype": rng.choice(["int", "np"])}
+            case["comps"] = [first, zero] + comps[:2]
+        elif gmode == "untrack" and case["pop"] >= 1:
+            c = case["comps"][0]
+            c["hooks"] = [h if h is not None else [5, 800 + j] for j, h in enumerate(c["hooks"][:5])] + c["hooks"][5:]
+            c["untrack"] = [[rng.randint(0, 2), rng.randrange(3), sorted(rng.sample(range(case["pop"]), rng.randint(1, case["pop"])))]
+                            for _ in range(rng.randint(1, 2))]
+            case["mode"] = rng.choice(MODES)
+        elif gmode == "explicit" and hu:
+            case["mode"] = "interactive_explicit"
+            case["sizes"] = [[rng.choice([1, 2, 3, hu, hu + 1, 2 * hu, max(1, hu - 1), 7, 36]), rng.choice(["pos", "kw", "take"])]
+                             for _ in range(rng.randint(1, 4))]
+        elif gmode == "split" and hu and dur > 0:
+            a = rng.randint(0, dur)
+            n1 = -(-a // hu)
+            room = dur - n1 * hu
+            case["mode"] = "interactive_split"
+            case["split"] = [a, rng.randint(0, room) if room > 0 else 0]
+        elif gmode == "prior":
+            plid = [500]
+            case["prior"] = dict(self._clock_cfg(rng), comps=[self._comp(rng, k, plid, rng.random() < 0.5) for k in range(rng.randint(1, 2))],
+                                 mode=rng.choice(MODES), pop=rng.choice([0, 1, 3]))
+            for c in case["prior"]["comps"]:
+                c["name"] = "p" + c["name"]
+        return case
 
     def boundary(self):
         lid = [0]
@@ -230,47 +509,126 @@ class C08(Prop):
         allp = {"name": "allp", "hooks": [[5, 100 + k] for k in range(5)],
                 "explicit": [["time_step", 9 - p, 200 + p] for p in range(10)] + [["time_step", 9 - p, 300 + p] for p in range(10)]}
         out.append({"clock": "simple", "start": 0, "stop": 2, "step": 1, "comps": [allp], "mode": "run_simulation", "pop": 2})
+        # --- LESSONS audit -------------------------------------------------------------------------------------
+        s10 = {"clock": "simple", "start": 0, "stop": 10, "step": 3, "pop": 2}
+        for mode in MODES:                                      # every entry point and call form, one fixed configuration
+            out.append(dict(s10, comps=comps, mode=mode))
+            out.append({"clock": "datetime", "start": [2024, 2, 28], "stop": [2024, 3, 2], "step": [3, 4], "comps": comps[:1], "mode": mode, "pop": 1})
+        # every call form of register_listener x every callable kind that has a name, every priority type
+        forms = {"name": "forms", "hooks": [None, [None, 400], None, [7, 401], [None, 402], [0, 403]], "hook_ptype": "np",
+                 "explicit": [["time_step", 3, 410, "pos", "lambda", "int"], ["time_step", 3, 411, "kw", "function", "np"],
+                              ["time_step", 1, 412, "kwprio", "method", "bool"], ["time_step", 0, 413, "pos", "named-helper", "bool"],
+                              ["time_step", None, 414, "default", "function", "int"], ["time_step", None, 415, "kw", "method", "int"],
+                              ["time_step", 9, 416, "kw", "lambda", "np8"], ["post_setup", 0, 417, "pos", "lambda", "np"],
+                              ["report", 2, 418, "kwprio", "function", "int"], ["simulation_end", None, 419, "default", "named-helper", "int"],
+                              # F34: callables without __name__, a bound method of an object without .name
+                              ["time_step", 6, 440, "pos", "object", "int"], ["time_step", 2, 441, "kw", "partial", "np"],
+                              ["time_step", None, 442, "default", "helper", "int"], ["post_setup", 1, 443, "kwprio", "partial", "int"],
+                              ["simulation_end", 0, 444, "pos", "object", "bool"], ["report", 9, 445, "kw", "helper", "int"]]}
+        other = {"name": "other", "via": 0, "hooks": [[2, 420], None, None, None, None],
+                 "explicit": [["time_step", 0, 421, "pos", "lambda", "int"], ["time_step__cleanup", 4, 422, "kw", "lambda", "int"]],
+                 "sub": [{"name": "child", "hooks": [None, [1, 430], [None, 431], None, None, [9, 432]], "explicit": [["time_step", 2, 433]]}]}
+        for mode in ("run_simulation_call", "interactive_step", "run_backup"):
+            out.append(dict(s10, comps=[forms, other], mode=mode))
+        # priority 0 behind earlier registrations at 1-5 (explicit, keyword, bool False, component property)
+        early = {"name": "early", "hooks": [None] * 5, "explicit": [["time_step", 4, 900], ["time_step", None, 901], ["time_step", 1, 902, "kw", "lambda", "int"]]}
+        for zero in ({"name": "zero", "hooks": [None] * 5, "explicit": [["time_step", 0, 950, "pos", "lambda", "int"]]},
+                     {"name": "zero", "hooks": [None] * 5, "explicit": [["time_step", 0, 950, "kw", "lambda", "bool"]]},
+                     {"name": "zero", "hooks": [None, [0, 950], None, None, None], "explicit": []}):
+            out.append(dict(s10, stop=3, comps=[early, zero], mode="run_simulation"))
+        # nobody listens / a single listener / components without hooks
+        out.append(dict(s10, comps=[{"name": "mute", "hooks": [None] * 5, "explicit": []}], mode="run_simulation_call"))
+        out.append(dict(s10, comps=[{"name": "one", "hooks": [None] * 5, "explicit": [["collect_metrics", 9, 1]]}], mode="interactive_run", pop=0))
+        # untracking listeners: every later event still reaches everybody (both kinds of context)
+        unt = {"name": "unt", "hooks": [[5, 1], [2, 2], [5, 3], [5, 4], [5, 5]], "explicit": [["report", None, 6]],
+               "untrack": [[0, 1, [0, 2]], [1, 0, [1]]]}
+        for mode in ("run_simulation", "interactive_run", "interactive_step", "run_simulation_call"):
+            out.append(dict(s10, pop=3, comps=[unt, comps[0]], mode=mode))
+        # explicit step sizes (positional, keyword, through take_steps) and split runs
+        out.append(dict(s10, comps=comps, mode="interactive_explicit", sizes=[[5, "pos"], [1, "kw"], [3, "take"]]))
+        out.append(dict(s10, comps=comps[:1], mode="interactive_explicit", sizes=[[12, "kw"]]))                 # one step beyond the end
+        out.append({"clock": "datetime", "start": [2020, 2, 28], "stop": [2020, 3, 2], "step": [1, 2], "comps": comps[:1], "pop": 1,
+                    "mode": "interactive_explicit", "sizes": [[36, "pos"], [1, "take"], [12, "kw"]]})
+        out.append(dict(s10, comps=comps, mode="interactive_split", split=[4, 2]))
+        out.append(dict(s10, comps=comps[:1], mode="interactive_split", split=[0, 0]))
+        out.append(dict(s10, comps=comps[:1], mode="interactive_split", split=[10, 0]))
+        out.append({"clock": "datetime", "start": [2023, 12, 31], "stop": [2024, 1, 3], "step": [3, 8], "comps": comps[:1], "pop": 2,
+                    "mode": "interactive_split", "split": [30, 20]})
+        # whole-day steps given as float, a standard step on the DateTimeClock (ignored without per-simulant clocks)
+        out.append({"clock": "datetime", "start": [2024, 2, 27], "stop": [2024, 3, 8], "step": [2, 1], "step_float": True, "std": 1.5,
+                    "comps": comps[:1], "mode": "run_simulation_call", "pop": 1})
+        # an earlier, differently configured simulation in the same process (other listeners, other clock)
+        prior = {"clock": "datetime", "start": [2020, 1, 1], "stop": [2020, 1, 3], "step": [1, 2], "pop": 1, "mode": "interactive_run",
+                 "comps": [{"name": "earlier", "hooks": [[0, 700], [9, 701], [5, 702], [5, 703], [5, 704]],
+                            "explicit": [["time_step", 0, 705], ["time_step__prepare", 9, 706], ["report", 1, 707]]}]}
+        out.append(dict(s10, comps=comps, mode="run_simulation", prior=prior))
+        out.append(dict(s10, comps=[forms, other], mode="interactive_until", prior=dict(prior, mode="run_simulation_call")))
         return out
 
     def shrink(self, case):
+        # (the earlier simulation of a case is never shrunk away: the shrinker runs in a process that has already seen
+        # other cases, so a failure that needs process history would survive the removal there and not replay)
         if case.get("std"):
             yield dict(case, std=None)
         if len(case["comps"]) > 1:
             for i in range(len(case["comps"])):
-                yield dict(case, comps=case["comps"][:i] + case["comps"][i + 1:])
+                rest = case["comps"][:i] + case["comps"][i + 1:]
+                if not any(c.get("via") is not None for c in rest):
+                    yield dict(case, comps=rest)
         for i, c in enumerate(case["comps"]):
+            if c.get("sub"):
+                yield dict(case, comps=case["comps"][:i] + [{k: v for k, v in c.items() if k != "sub"}] + case["comps"][i + 1:])
             if c["explicit"]:
                 yield dict(case, comps=case["comps"][:i] + [dict(c, explicit=c["explicit"][:-1])] + case["comps"][i + 1:])
-        if case["clock"] == "simple" and case["stop"] - case["start"] > case["step"]:
-            yield dict(case, stop=case["start"] + case["step"])
-        if case["mode"] != "run_simulation":
+            if any(len(e) > 3 for e in c["explicit"]):
+                yield dict(case, comps=case["comps"][:i] + [dict(c, explicit=[e[:3] for e in c["explicit"]])] + case["comps"][i + 1:])
+        if case["clock"] == "simple" and case["stop"] - case["start"] > (case.get("std") or case["step"]) and case["mode"] not in ("interactive_split",):
+            yield dict(case, stop=case["start"] + (case.get("std") or case["step"]))
+        if case["mode"] not in ("run_simulation", "interactive_explicit", "interactive_split"):
             yield dict(case, mode="run_simulation")
+        if case["mode"] == "interactive_explicit" and len(case["sizes"]) > 1:
+            yield dict(case, sizes=case["sizes"][:-1])
 
     def run_impl(self, case):
-        return _run(case)
+        keep = []
+        if case.get("prior"):
+            try:
+                _run(case["prior"], keep)       # really runs, with its own configuration; its context stays alive
+            except CaseTimeout:
+                raise
+            except Exception:  # noqa: BLE001
+                pass
+        return _run(case, keep)
 
     def _regs(self, case):
-        """registrations per channel as (channel, priority, id); order inside a priority level is canonicalised away"""
-        regs = []
-        for c in case["comps"]:
-            for ch, pr, lid in c["explicit"]:
-                regs.append((ch, 5 if pr is None else pr, lid))
-            for k, ch in enumerate(CH + ["simulation_end"]):
-                regs.append((ch, c["hooks"][k][0], c["hooks"][k][1]))
-        return regs
+        return _regs(case)
+
+    # ------------------------------------------------------------------ model
+    def _times(self, case, obs):
+        """start, end, step fed to the model: the CONFIGURED values (the observed step only for inexact day fractions)"""
+        t0, stop, h = _configured(case)
+        return t0, stop, (h if h is not None else obs.get("h"))
 
     def model_lines(self, case, obs):
-        if obs.get("t0") is None:
+        t0, stop, h = self._times(case, obs)
+        if h is None:
             return []
-        L = [f"reg {ch} {p} {i}" for ch, p, i in self._regs(case)]
-        L.append(f"sim {obs['t0']} {obs['h']} {obs['stop']}")
-        L.append(f"steps {obs['t0']} {obs['h']} {obs['stop']}")
-        L.append(f"until {obs['t0']} {obs['h']} {obs['stop']}")
+        L = [f"reg {ch} {p} {i}" for ch, p, i in _regs(case)]
+        if case["mode"] == "interactive_explicit":
+            u = _unit(case)
+            L.append(f"xsim {t0} {h} {stop} {','.join(str(x * u) for x, _ in case['sizes'])}")
+        else:
+            L.append(f"sim {t0} {h} {stop}")
+        L.append(f"steps {t0} {h} {stop}")
+        L.append(f"until {t0} {h} {stop}")
+        if case["mode"] == "interactive_split":
+            u = _unit(case)
+            L.append(f"split {t0} {h} {stop} {t0 + case['split'][0] * u} {case['split'][1] * u}")
         return L
 
     def compare(self, case, obs, replies):
         dis = []
-        n = len(self._regs(case))
+        n = len(_regs(case))
         if any(r != "ok" for r in replies[:n]):
             dis.append("model refused a registration")
         t = replies[n].split()
@@ -297,42 +655,44 @@ class C08(Prop):
             dis.append(f"steps returned by the interactive API {obs['returned_steps']} vs model run loop {nsteps}")
         if "returned_steps" in obs and obs["returned_steps"] != max(int(replies[n + 2]), 0):
             dis.append(f"steps returned by the interactive API {obs['returned_steps']} vs model ceilDiv {replies[n + 2]}")
+        if "returned_split" in obs:
+            m = [int(x) for x in replies[n + 3].split()]
+            if obs["returned_split"] != m[:3] or obs["final_clock"] != m[3]:
+                dis.append(f"split run: impl returned {obs['returned_split']} final clock {obs['final_clock']}, model {m}")
         return dis
 
+    # ------------------------------------------------------------------ oracle (the property itself)
     def oracle(self, case, obs):
         f = []
+        t0c, stopc, hc = _configured(case)
+        kinds = {_explicit(e)[4] for c in _flat(case["comps"]) for e in c["explicit"]}
+        user_channels = {e[0] for c in _flat(case["comps"]) for e in c["explicit"]} - LIFECYCLE_EVENTS
         if obs["error"]:
-            if obs.get("t0") is not None and obs["stop"] <= obs["t0"] and obs["error"].startswith("InvalidTransitionError"):
+            if stopc <= t0c and obs["error"].startswith("InvalidTransitionError"):
                 return []   # zero steps: simulation_end is not a legal successor of population_creation (C06); excluded
+            if kinds & set(UNNAMED_KINDS) and obs["error"].startswith("AttributeError"):
+                return [{"sig": "unnamed-listener-kills-setup", "msg": f"listener kinds {sorted(kinds)}: {obs['error']}"}]
+            if user_channels and obs["error"].startswith("LifeCycleError"):
+                return [{"sig": "user-channel-kills-setup", "msg": f"channels {sorted(user_channels)}: {obs['error']}"}]
             return [{"sig": "simulation-raised", "msg": obs["error"]}]
         t0, stop, h = obs["t0"], obs["stop"], obs["h"]
         if h <= 0:
             return [{"sig": "nonpositive-step", "msg": str(h)}]
         # start, end and step as CONFIGURED (not as read back from the clock)
-        if case["clock"] == "simple":
-            want_t0, want_stop, want_h = case["start"], case["stop"], (case.get("std") or case["step"])
-            if (t0, stop, h) != (want_t0, want_stop, want_h):
-                f.append({"sig": "configured-times", "msg": f"clock after creation {t0}, stop {stop}, step {h}; configured start {want_t0}, "
-                          f"end {want_stop}, step {want_h}"})
-        else:
-            import datetime
-            epoch = datetime.datetime(1970, 1, 1)
-            want_t0 = int((datetime.datetime(*case["start"]) - epoch).total_seconds()) * 1_000_000_000
-            want_stop = int((datetime.datetime(*case["stop"]) - epoch).total_seconds()) * 1_000_000_000
-            if (t0, stop) != (want_t0, want_stop):
-                f.append({"sig": "configured-times", "msg": f"clock after creation {t0}, stop {stop}; configured start {want_t0}, end {want_stop}"})
-        # configuration -> step conversion on exactly representable day fractions
+        if (t0 is not None and t0 != t0c) or stop != stopc or (hc is not None and h != hc):
+            f.append({"sig": "configured-times", "msg": f"clock after creation {t0}, stop {stop}, step {h}; configured start {t0c}, "
+                      f"end {stopc}, step {hc}"})
         if case["clock"] == "datetime":
             num, den = case["step"]
             want = Fraction(num, den) * DAY_NS
-            exact = den & (den - 1) == 0          # dyadic day fraction: every float operation of the conversion is exact
-            if (exact and want != h) or abs(want - h) > 1000:   # otherwise: within 1 microsecond of the configured step
+            if hc is None and abs(want - h) > 1000:     # inexact fraction: within 1 microsecond of the configured step
                 f.append({"sig": "step-conversion", "msg": f"configured {num}/{den} days = {float(want)} ns, clock step {h} ns"})
-        n = max(0, math.ceil(Fraction(stop - t0, h)))
-        regs = self._regs(case)
+        h = hc if hc is not None else h
+        sched, ret, t_end = _schedule(case, t0c, stopc, h)
+        regs = _regs(case)
         calls = obs["log"]
+        pop = case["pop"]
         # expected emissions in order: post_setup (once, before the population exists), the steps, simulation_end, report
-        pos = 0
         want_ps = sorted([(p, i) for c, p, i in regs if c == "post_setup"])
         grp = calls[:len(want_ps)]
         pos = len(want_ps)
@@ -341,8 +701,7 @@ class C08(Prop):
             return f
         if any(a[2] > b[2] for a, b in zip(grp, grp[1:])):
             f.append({"sig": "priority-order", "msg": f"post_setup: priorities {[c[2] for c in grp]}"})
-        for k in range(n):
-            clock = t0 + k * h
+        for k, (clock, size) in enumerate(sched):
             for ch in CH:
                 want = sorted([(p, i) for c, p, i in regs if c == ch])
                 grp = calls[pos:pos + len(want)]
@@ -353,44 +712,85 @@ class C08(Prop):
                 if any(a[2] > b[2] for a, b in zip(grp, grp[1:])):
                     f.append({"sig": "priority-order", "msg": f"step {k} {ch}: priorities {[c[2] for c in grp]}"})
                 for c in grp:
-                    if c[3] != clock or c[4] != clock + h or c[5] != h:
-                        f.append({"sig": "event-fields", "msg": f"step {k} {ch}: clock {c[3]} time {c[4]} step {c[5]}; expected {clock} {clock + h} {h}"})
+                    if c[3] != clock or c[4] != clock + size or c[5] != size:
+                        f.append({"sig": "event-fields", "msg": f"step {k} {ch}: clock {c[3]} time {c[4]} step {c[5]}; expected {clock} {clock + size} {size}"})
+                        return f
+                    if c[6] != pop:
+                        f.append({"sig": "event-index", "msg": f"step {k} {ch} listener {c[1]}: event.index has {c[6]} simulants, the population has {pop} (untracked included)"})
                         return f
         want_end = sorted([(p, i) for c, p, i in regs if c == "simulation_end"])
         want_rep = sorted([(p, i) for c, p, i in regs if c == "report"])
         grp = calls[pos:pos + len(want_end)]
         rep = calls[pos + len(want_end):]
+        n = len(sched)
         if sorted((c[2], c[1]) for c in grp) != want_end or any(c[0] != "simulation_end" for c in grp):
             f.append({"sig": "end-events", "msg": f"after {n} steps: calls {[(c[0], c[1]) for c in grp][:8]} (expected simulation_end once per listener)"})
         elif sorted((c[2], c[1]) for c in rep) != want_rep or any(c[0] != "report" for c in rep):
             f.append({"sig": "end-events", "msg": f"after simulation_end: calls {[(c[0], c[1]) for c in rep][:8]} (expected report once per listener)"})
+        else:
+            for c in grp + rep:
+                if c[6] != pop:
+                    f.append({"sig": "event-index", "msg": f"{c[0]} listener {c[1]}: event.index has {c[6]} simulants, the population has {pop}"})
+                    break
         for g in (grp, rep):
             if any(a[2] > b[2] for a, b in zip(g, g[1:])):
                 f.append({"sig": "priority-order", "msg": f"end events: priorities {[c[2] for c in g]}"})
-        if obs["final_clock"] != t0 + n * h:
-            f.append({"sig": "final-clock", "msg": f"final clock {obs['final_clock']}, expected {t0 + n * h} after {n} steps"})
+        if obs["final_clock"] != t_end:
+            f.append({"sig": "final-clock", "msg": f"final clock {obs['final_clock']}, expected {t_end} after {n} steps"})
         for name, clock, ctime, cwin, cnt in obs["init"]:
-            if clock != t0 - h or ctime != t0 - h or cwin != h:
-                f.append({"sig": "fencepost", "msg": f"initializer {name}: clock {clock}, creation_time {ctime}, window {cwin}; expected {t0 - h}, {t0 - h}, {h}"})
-        if "returned_steps" in obs and obs["returned_steps"] != n:
-            f.append({"sig": "returned-steps", "msg": f"interactive API returned {obs['returned_steps']} steps, expected {n}"})
+            if clock != t0c - h or ctime != t0c - h or cwin != h or cnt != pop:
+                f.append({"sig": "fencepost", "msg": f"initializer {name}: clock {clock}, creation_time {ctime}, window {cwin}, {cnt} simulants; "
+                          f"expected {t0c - h}, {t0c - h}, {h}, {pop}"})
+        if "returned_steps" in obs and obs["returned_steps"] != ret.get("n"):
+            f.append({"sig": "returned-steps", "msg": f"interactive API returned {obs['returned_steps']} steps, expected {ret.get('n')}"})
+        if "returned_split" in obs and obs["returned_split"] != ret.get("split"):
+            f.append({"sig": "returned-steps", "msg": f"run_until / run_for / run returned {obs['returned_split']}, expected {ret.get('split')}"})
+        if "returned_after" in obs and obs["returned_after"] != ret.get("after"):
+            f.append({"sig": "returned-steps", "msg": f"run() after the explicit steps returned {obs['returned_after']}, expected {ret.get('after')}"})
+        for ch, listed in (obs.get("listed") or {}).items():
+            for p in range(10):
+                want_n = len([1 for c, q, _ in regs if c == ch and q == p])
+                got = listed.get(str(p), 0)
+                # the framework's own listeners (results, clock, values, event manager) all sit at the default priority
+                if (got < want_n) if p == 5 else (got != want_n):
+                    f.append({"sig": "listed-priority", "msg": f"get_listeners({ch!r}) lists {got} listeners at priority {p}, {want_n} were registered there"})
+                    break
+        if "step_after_explicit" in obs and obs["step_after_explicit"] != h:
+            f.append({"sig": "explicit-step-not-undone", "msg": f"global step after the explicit steps {obs['step_after_explicit']}, configured {h}"})
         return f
 
     def nontrivial(self, case, obs):
         if obs["error"] or not obs["log"]:
             return False
-        regs = self._regs(case)
+        regs = _regs(case)
         return any(len({p for c, p, _ in regs if c == ch}) > 1 for ch in CH)
 
     def tags(self, case, obs):
         t = [case["clock"], case["mode"], f"pop{case['pop']}", "standard-step-set" if case.get("std") else "standard-step-unset"]
-        if obs.get("t0") is not None and obs["h"] > 0:
-            n = max(0, math.ceil(Fraction(obs["stop"] - obs["t0"], obs["h"])))
+        t0, stop, h = self._times(case, obs)
+        if h and h > 0:
+            n = len(_schedule(case, t0, stop, h)[0])
             t.append("steps:" + ("0" if n == 0 else "1" if n == 1 else "2-5" if n <= 5 else "6+"))
-            t.append("end-multiple" if (obs["stop"] - obs["t0"]) % obs["h"] == 0 else "end-not-multiple")
+            t.append("end-multiple" if (stop - t0) % h == 0 else "end-not-multiple")
         if case["clock"] == "datetime":
             t.append("step-fraction" if case["step"][1] != 1 else "step-whole-days")
-        t.append("default-priority" if any(e[1] is None for c in case["comps"] for e in c["explicit"]) else "explicit-priorities")
+            t += ["step-float"] * bool(case.get("step_float")) + ["start-not-2020-01-01"] * (case["start"] != [2020, 1, 1])
+        flat = list(_flat(case["comps"]))
+        ex = [_explicit(e) for c in flat for e in c["explicit"]]
+        t.append("default-priority" if any(e[1] is None for e in ex) else "explicit-priorities")
+        t += ["form:" + e[3] for e in ex] + ["kind:" + e[4] for e in ex] + ["ptype:" + e[5] for e in ex if e[1] is not None]
+        t += ["hook-undefined"] * any(h is None for c in flat for h in c["hooks"][:5])
+        t += ["hook-default-priority"] * any(h is not None and h[0] is None for c in flat for h in c["hooks"])
+        t += ["post-setup-hook"] * any(len(c["hooks"]) > 5 and c["hooks"][5] is not None for c in flat)
+        t += ["sub-components"] * any(c.get("sub") for c in flat) + ["foreign-handle"] * any(c.get("via") is not None for c in flat)
+        t += ["untracking"] * any(c.get("untrack") for c in flat) + ["process-history"] * bool(case.get("prior"))
+        regs = _regs(case)
+        t += ["silent-channel"] * any(not [1 for c, _, _ in regs if c == ch] for ch in CH)
+        for ch in CH:
+            ps = [p for c, p, _ in regs if c == ch]
+            if 0 in ps and any(1 <= p <= 5 for p in ps):
+                t.append("priority-0-with-competitor")
+                break
         return t
 
     def sample_view(self, case, obs):
